@@ -86,3 +86,13 @@ def publication_routines(ctx):
         if 'delete' in kinds and ('put' in kinds or 'update' in kinds):
             out.append(func)
     return master, out
+
+
+def before_after(loop):
+    """Names bound to the old and the new server by a loop over the
+    placement tuples (instance, before, exp_before, after, exp_after)."""
+    if loop is not None and isinstance(loop.ast.target, ast.Tuple) and \
+            len(loop.ast.target.elts) == 5:
+        elts = loop.ast.target.elts
+        return N.txt(elts[1]), N.txt(elts[3])
+    return 'before', 'after'
